@@ -360,19 +360,20 @@ var helpers16 = []helper16{
 	{"FindMaxBy", func(q *pool16) any { return gogu.FindMaxBy(q.s1, key16(q.f)) }},
 	{"FindMaxByKey", func(q *pool16) any { r, _ := gogu.FindMaxByKey(q.ms, q.n); return r }},
 	{"Nth", func(q *pool16) any { r, _ := gogu.Nth(q.s1, q.n); return r }},
-	{"Keys", func(q *pool16) any { return sortedInts(gogu.Keys(q.m1)) }},
-	{"Values", func(q *pool16) any { return sortedInts(gogu.Values(q.m1)) }},
+	{"Keys", func(q *pool16) any { return gogu.Keys(q.m1) }},
+	{"Values", func(q *pool16) any { return gogu.Values(q.m1) }},
 	{"MapValues", func(q *pool16) any { return gogu.MapValues(q.m1, key16(q.f)) }},
 	{"MapKeys", func(q *pool16) any { return gogu.MapKeys(q.m1, func(k, v int) int { return key16(q.f)(k) }) }},
 	{"MapEvery", func(q *pool16) any { return gogu.MapEvery(q.m1, pred16(q.p)) }},
 	{"MapSome", func(q *pool16) any { return gogu.MapSome(q.m1, pred16(q.p)) }},
 	{"MapContains", func(q *pool16) any { return gogu.MapContains(q.m1, q.n) }},
-	{"MapUnique", func(q *pool16) any { return len(gogu.MapUnique(q.m1)) }},
-	{"MapCollection", func(q *pool16) any { return sortedInts(gogu.MapCollection(q.m1, key16(q.f))) }},
+	{"MapUnique", func(q *pool16) any { return gogu.MapUnique(q.m1) }},
+	{"MapUnique1", func(q *pool16) any { return gogu.MapUnique(map[int]int{q.n: q.p}) }},
+	{"MapCollection", func(q *pool16) any { return gogu.MapCollection(q.m1, key16(q.f)) }},
 	{"Find", func(q *pool16) any { return gogu.Find(q.m1, pred16(q.p)) }},
 	{"FindKey", func(q *pool16) any { gogu.FindKey(q.m1, pred16(q.p)); return nil }},
-	{"FindByKey", func(q *pool16) any { return len(gogu.FindByKey(q.m1, pred16(q.p))) }},
-	{"Invert", func(q *pool16) any { return len(gogu.Invert(q.m1)) }},
+	{"FindByKey", func(q *pool16) any { return gogu.FindByKey(q.m1, pred16(q.p)) }},
+	{"Invert", func(q *pool16) any { return gogu.Invert(q.m1) }},
 	{"Pluck", func(q *pool16) any { return gogu.Pluck(q.ms, q.n) }},
 	{"Pick", func(q *pool16) any { r, _ := gogu.Pick(q.m1, q.keys...); return r }},
 	{"PickBy", func(q *pool16) any { return gogu.PickBy(q.m1, func(k, v int) bool { return pred16(q.p)(v) }) }},
@@ -384,7 +385,7 @@ var helpers16 = []helper16{
 	{"SliceToMap", func(q *pool16) any { return gogu.SliceToMap(q.s1, q.s2) }},
 	{"Min", func(q *pool16) any { return gogu.Min(q.s1...) }},
 	{"Max", func(q *pool16) any { return gogu.Max(q.s1...) }},
-	{"Shuffle", func(q *pool16) any { return sortedInts(gogu.Shuffle(q.s1)) }},
+	{"Shuffle", func(q *pool16) any { return gogu.Shuffle(q.s1) }},
 	{"Substr", func(q *pool16) any { return gogu.Substr(q.str, q.n, 2) }},
 	{"ToLower", func(q *pool16) any { return gogu.ToLower(q.str) }},
 	{"ToUpper", func(q *pool16) any { return gogu.ToUpper(q.str) }},
